@@ -7,8 +7,13 @@ import (
 
 // DefaultOptions of the controller under test.
 func DefaultOptions() Options {
-	return Options{Class: ClassConfig{IngressClass: "haproxy", ControllerName: OurController}, ConfigMapName: "ingress-controller/haproxy-ingress"}
+	return Options{Class: ClassConfig{IngressClass: "haproxy", ControllerName: OurController}, ConfigMapName: "ingress-controller/haproxy-ingress",
+		// the option is set, the ConfigMap object exists only after a `tcp~` op (no op = no event = converter never runs)
+		TCPConfigMapName: TCPConfigMapDefault}
 }
+
+// TCPConfigMapDefault is the --tcp-services-configmap of DefaultOptions
+const TCPConfigMapDefault = "ingress-controller/tcp-services"
 
 // RunResult of a history.
 type RunResult struct {
